@@ -1352,3 +1352,75 @@ Proof.
       * unfold is_time, getc in Tx. rewrite nth_overflow in Tx by exact Hge. discriminate.
       * rewrite (Hn x Hl) in Tx. discriminate.
 Qed.
+
+(** ** life cycle (C03): shape of the call sequence *)
+Definition phase (c : call) : nat := match c with KI => 0 | KC => 1 | KV => 2 | KU => 3 | KF => 4 end.
+
+Fixpoint nondecreasing (l : list nat) : Prop :=
+  match l with
+  | a :: ((b :: _) as r) => (a <= b)%nat /\ nondecreasing r
+  | _ => True
+  end.
+
+Definition hd_ge (a : nat) (l : list nat) : Prop := match l with [] => True | b :: _ => (a <= b)%nat end.
+
+Lemma nd_cons a l : hd_ge a l -> nondecreasing l -> nondecreasing (a :: l).
+Proof. destruct l as [|b r]; simpl; auto. Qed.
+
+Lemma nd_repeat_app a n l : hd_ge a l -> nondecreasing l -> nondecreasing (repeat a n ++ l).
+Proof.
+  intros H1 H2. induction n as [|n IH]; simpl; [exact H2|].
+  apply nd_cons; [|exact IH]. destruct n; simpl; [exact H1|lia].
+Qed.
+
+Lemma hd_ge_repeat_app a b n l : (a <= b)%nat -> hd_ge a l -> hd_ge a (repeat b n ++ l).
+Proof. intros H1 H2. destruct n; simpl; [exact H2|exact H1]. Qed.
+
+Lemma count_call_repeat_other c d n : call_eqb c d = false -> count_call c (repeat d n) = O.
+Proof. intros H. unfold count_call. induction n as [|n IH]; simpl; [reflexivity|]. now rewrite H. Qed.
+
+Lemma count_call_repeat_same c n : count_call c (repeat c n) = n.
+Proof.
+  unfold count_call. induction n as [|n IH]; simpl; [reflexivity|].
+  assert (call_eqb c c = true) as -> by (destruct c; reflexivity). simpl. now rewrite IH.
+Qed.
+
+Lemma count_call_app c l1 l2 : count_call c (l1 ++ l2) = (count_call c l1 + count_call c l2)%nat.
+Proof. unfold count_call. now rewrite filter_app, app_length. Qed.
+
+Lemma count_call_cons c d l : count_call c (d :: l) = ((if call_eqb c d then 1 else 0) + count_call c l)%nat.
+Proof. unfold count_call. simpl. destruct (call_eqb c d); reflexivity. Qed.
+
+Lemma map_repeat' {A B} (f : A -> B) x n : map f (repeat x n) = repeat (f x) n.
+Proof. induction n as [|n IH]; simpl; [reflexivity|]. now rewrite IH. Qed.
+
+Lemma lifecycle_eq nconn nupd :
+  lifecycle nconn nupd = (KI :: repeat KC nconn ++ KV :: repeat KU nupd) ++ [KF].
+Proof. unfold lifecycle. simpl. rewrite <- app_assoc. reflexivity. Qed.
+
+Lemma lifecycle_shape nconn nupd :
+  hd_error (lifecycle nconn nupd) = Some KI /\
+  last (lifecycle nconn nupd) KI = KF /\
+  nondecreasing (map phase (lifecycle nconn nupd)) /\
+  count_call KI (lifecycle nconn nupd) = 1%nat /\ count_call KC (lifecycle nconn nupd) = nconn /\
+  count_call KV (lifecycle nconn nupd) = 1%nat /\ count_call KU (lifecycle nconn nupd) = nupd /\
+  count_call KF (lifecycle nconn nupd) = 1%nat.
+Proof.
+  split; [reflexivity|]. split; [rewrite lifecycle_eq; apply last_last|]. split.
+  - unfold lifecycle. cbn [map]. rewrite map_app. cbn [map]. rewrite map_app. rewrite !map_repeat'. cbn [map phase].
+    apply nd_cons; [apply hd_ge_repeat_app; simpl; lia|].
+    apply nd_repeat_app; [simpl; lia|].
+    apply nd_cons; [apply hd_ge_repeat_app; simpl; lia|].
+    apply nd_repeat_app; simpl; auto.
+  - assert (E : forall c, count_call c (lifecycle nconn nupd) =
+                ((if call_eqb c KI then 1 else 0) + (count_call c (repeat KC nconn)
+                 + ((if call_eqb c KV then 1 else 0) + (count_call c (repeat KU nupd) + (if call_eqb c KF then 1 else 0)))))%nat).
+    { intros c. unfold lifecycle. rewrite count_call_cons, count_call_app, count_call_cons, count_call_app.
+      rewrite count_call_cons. unfold count_call at 3. simpl. lia. }
+    rewrite !E. cbn [call_eqb].
+    rewrite !count_call_repeat_same.
+    rewrite (count_call_repeat_other KI KC), (count_call_repeat_other KI KU), (count_call_repeat_other KC KU),
+            (count_call_repeat_other KV KC), (count_call_repeat_other KV KU), (count_call_repeat_other KU KC),
+            (count_call_repeat_other KF KC), (count_call_repeat_other KF KU) by reflexivity.
+    repeat split; lia.
+Qed.
